@@ -217,7 +217,12 @@ impl SubFix {
 
     /// What the connection's timer task does: expire stale publish requests, tick, collect the responses.
     pub fn tick(&mut self, ctx: &Ctx, delta_ms: i64) -> Result<Vec<(u32, SupportedMessage)>, Failure> {
-        self.now = self.now + chrono::Duration::milliseconds(delta_ms);
+        self.tick_by(ctx, chrono::Duration::milliseconds(delta_ms))
+    }
+
+    /// the same with a clock step of any resolution (the server's clock has nanoseconds)
+    pub fn tick_by(&mut self, ctx: &Ctx, delta: chrono::Duration) -> Result<Vec<(u32, SupportedMessage)>, Failure> {
+        self.now = self.now + delta;
         let now = self.now;
         let a = self.conn.server.address_space();
         let session = self.session.clone();
